@@ -72,6 +72,16 @@ def run_case(spec):
         while drv.pending_listen[side]:
             drv.listen(side, drv.pending_listen[side].pop(0))
     sch.drain(120.0, 10000, until=lambda: False)
+    # an application that, later on, starts listening for a name it had NOT declared as expected: OPENs for that
+    # name were refused when they arrived and must stay refused
+    late_undeclared = []
+    if spec["expected"]:
+        for i, side in enumerate("AB"):
+            for n in names:
+                if n not in expected[i] and n not in drv.factories[side] and rng.random() < 0.7:
+                    drv.listen(side, n)
+                    late_undeclared.append((side, n))
+        sch.drain(30.0, 3000, until=lambda: False)
     # close everything that is still open, from a random side; also try writes after close
     writes_after_close = 0
     wac_errors = []
@@ -99,6 +109,12 @@ def run_case(spec):
         if extra:
             w.update(extra)
         return w
+    for (side, n) in late_undeclared:
+        f = drv.factories[side].get(n)
+        if f is not None and f.built:
+            viol.append({"key": "C13/refused-open-delivered-to-late-listener",
+                         "msg": "%s declared %s as expected, refused the OPEN(s) for %r, and its later listener for %r was handed %d subchannel(s)" % (
+                             side, expected["AB".index(side)], n, n, len(f.built)), "witness": wit()})
     # ids allocated by the two sides are disjoint
     ids = {"A": set(), "B": set()}
     for r in drv.opens:
